@@ -63,11 +63,18 @@ def mergeOrderOk (steps : List (Nat × Nat)) : Bool :=
 
 theorem merge_order_as_modelled : mergeOrderOk mergeSteps = true := by decide +kernel
 
+/-- the same strings, in any order and however the key lists are spelled (literal lists, module tuples, `a or b` tests) -/
+def sameKeys (xs ys : List (List Nat)) : Bool := xs.all (ys.contains ·) && ys.all (xs.contains ·)
+
 /-- the keys skipped by the loop / treated as typed sections are the model's -/
 theorem merge_keys_as_modelled :
-    mergeSkippedKeys = [tables.strOf tables.kModels, tables.strOf tables.kAdditionalModels] ∧
-    mergeSectionKeys = [tables.strOf tables.kTraining, tables.strOf tables.kValidation, tables.strOf tables.kInference] := by
+    sameKeys mergeSkippedKeys [tables.strOf tables.kModels, tables.strOf tables.kAdditionalModels] = true ∧
+    sameKeys mergeSectionKeys
+      [tables.strOf tables.kTraining, tables.strOf tables.kValidation, tables.strOf tables.kInference] = true := by
   decide +kernel
+
+/-- a dropped key is noticed -/
+example : sameKeys [[109, 111, 100, 101, 108, 115]] [[109, 111, 100, 101, 108, 115], [97]] = false := by decide
 
 /-- a wrong order is rejected by the predicate (merge before the models are loaded; two merges) -/
 example : mergeOrderOk [(2, 0), (9, 0), (10, 1), (11, 2), (12, 4), (13, 3), (14, 1), (3, 0), (4, 0), (5, 0), (6, 0), (7, 0),
